@@ -125,6 +125,33 @@ def deleted_files_before_dirs(ck: Checker, rule: str) -> None:
     rem = [(n, c) for n in g.nodes.values() for c in calls_at(n) if call_name(c) == "_remove" and n.loops]
     ck.floor(rule, len(rem), 1, "guarded removals inside loops of _checkout")
     n_del = 0
+    # the partition form: vanished entries are first split into a files list and a directories list, then removed
+    # by one loop each - fine as long as no removal of the directories list precedes one of the files list
+    part = {}  # list name -> "dirs" | "files"
+    for t in g.nodes.values():
+        if t.kind == "test" and "isdir" in norm(t.ast) and t.loops and ".deleted" in norm(g.nodes[t.loops[-1]].ast.iter if g.nodes[t.loops[-1]].kind == "for" else ast.Constant(value=0)):
+            for lab, kind in (("T", "dirs"), ("F", "files")):
+                if norm(t.ast).startswith("not "):
+                    kind = "files" if kind == "dirs" else "dirs"
+                sub = g.reach([d for l_, d in t.succ if l_ == lab], skip_node=lambda x, t=t: x.id == t.loops[-1])
+                for i in sub:
+                    for c2 in calls_at(g.nodes[i]):
+                        if is_method_call(c2, "append") and isinstance(c2.func.value, ast.Name):
+                            # appended on exactly one side of the isdir test
+                            other = g.reach([d for l_, d in t.succ if l_ != lab and l_ in ("T", "F")], skip_node=lambda x, t=t: x.id == t.loops[-1])
+                            if i not in other:
+                                part[c2.func.value.id] = kind
+    part_loops = [(g.nodes[n.loops[-1]], part.get(norm(g.nodes[n.loops[-1]].ast.iter))) for n, c in rem if g.nodes[n.loops[-1]].kind == "for" and part.get(norm(g.nodes[n.loops[-1]].ast.iter))]
+    if part_loops:
+        files_l = [h_ for h_, k_ in part_loops if k_ == "files"]
+        dirs_l = [h_ for h_, k_ in part_loops if k_ == "dirs"]
+        from ..an import reaches
+
+        okp = bool(files_l) and bool(dirs_l) and not any(reaches(g, hd.id, hf.id) for hd in dirs_l for hf in files_l)
+        ck.require(okp, rule, fn, (dirs_l or files_l)[0], "vanished files are removed before vanished directories (partitioned form)",
+                   "the removal of the directory entries can run before the removal of the file entries: a directory's removal passes its guard (the .dir object is cached) and takes along files whose own objects are not in the cache",
+                   construct="removal loops over the files / directories partition of diff.deleted")
+        n_del += 1
     for n, c in rem:
         h = g.nodes[n.loops[-1]]
         if h.kind != "for":
